@@ -237,6 +237,11 @@ def s7_prop(ctx, prop_id):
         corpus = load_corpus(ctx, prop_id)
         ctx.cov['corpus_cases'] = len(corpus)
         s7_check(ctx, prop_id, corpus + cases)
+        if prop_id in ('C01', 'C02'):
+            # which provider's value a parameter / a received value is matched to (interface matches through Loose, nearest
+            # candidate first) and which slot it lives in: the model of match.go / include.go / bind.go against the dumps
+            stage_stats(ctx, corpus + cases, rmap_compare, 'S5rmap')
+            stage_stats(ctx, corpus + cases, s6_compare, 'S6')
     ctx.assumptions += [
         'provider bodies are the harness\'s scripted bodies (any Beh in the theorem; scripted ones in the correspondence)',
         'Parallel wrappers: returned values are not propagated across inner() (documented limitation of Parallel)',
@@ -644,6 +649,14 @@ def s5_compare(case):
         if f['inc'] == '1' and (f['drm'], f['urm'], f['brm']) != (w[1], w[2], w[3]):
             return 'diff', 'rmaps of %s: impl %s model %s' % (f['id'], (f['drm'], f['urm'], f['brm']), w[1:4])
     return 'same', ''
+
+
+def rmap_compare(case):
+    """only the type remaps of the included providers (who supplies an interface-typed parameter or received value)"""
+    st, d = s5_compare(case)
+    if st == 'diff' and not d.startswith('rmaps'):
+        return 'skip', d
+    return st, d
 
 
 def s6_compare(case):
